@@ -188,6 +188,10 @@ theorem inverse_invariant (eps : K) (a : M4 K) (s : GJ K) (h : inverseGJ eps a =
   rw [h] at key
   exact key
 
+/-- A matrix that needs a row exchange at the very first step (zero diagonal: rotation by 90°). -/
+example : (inverseGJ (1 / 8388608 : ℚ) (rotateZ 1 0)).isOk = true := by decide +kernel
+example : exchangeCount (rotateZ (1 : ℚ) 0) = 1 := by decide +kernel
+
 /-- Hence: if elimination ends with `this` reduced to the identity, the returned matrix is a
 left inverse of the input. -/
 theorem inverse_left_of_reduced (eps : K) (a : M4 K) (s : GJ K) (h : inverseGJ eps a = .ok s)
